@@ -1,5 +1,6 @@
 import Tsg.Driver.AstIO
 import Tsg.Driver.Ops
+import Tsg.Sem.Lazy
 
 namespace Driver
 
@@ -43,7 +44,9 @@ def handleExec (t : Tree) (args : List Sexp) : Sexp :=
   match execReqOfSexp args with
   | none => .list [.atom "bad-request"]
   | some r =>
-    if r.lazy then .list [.atom "unsupported", .atom "lazy"]
+    if r.lazy then
+      runResultSexp (Lazy.run r.file t r.oracle.toOracle [r.globals] r.locAttr r.varAttr r.matchAttr
+        r.cancelAt r.fuel 100000 r.merged r.graph0)
     else
       runResultSexp (Strict.run r.file t r.oracle.toOracle [r.globals] r.locAttr r.varAttr r.matchAttr
         r.cancelAt r.fuel r.matchLists r.graph0)
